@@ -47,7 +47,12 @@ func (d *Pegnetd) GradeS(ctx context.Context, block *factom.EBlock) (graderStake
 		}
 		// allow only top 100 stake holders submit prices
 		stakerRCD := extids[1]
-		if d.Pegnet.IsIncludedTopPEGAddress(stakerRCD) {
+		included, err := d.Pegnet.IsIncludedTopPEGAddress(stakerRCD)
+		if err != nil {
+			// a database error must not read as "not a top holder"
+			return nil, err
+		}
+		if included {
 			// ignore bad opr errors
 			err = g.AddSPR(entry.Hash[:], extids, entry.Content)
 			if err != nil {
